@@ -555,6 +555,17 @@ where
     }
 }
 
+/// C10 on pairs of one type: `a == b`, `b == a`, and whether both feed the same data to a Hasher
+#[inline(never)]
+fn eqhash<T: Sub + PartialEq + Hash>(a: &[&str]) -> String {
+    let (x, y) = (T::parse(a[0]), T::parse(a[1]));
+    let (mut hx, mut hy) = (RecHasher::default(), RecHasher::default());
+    x.hash(&mut hx);
+    y.hash(&mut hy);
+    // third value: the property itself on this pair — equal values hashed identically
+    format!("ok {} {} {}", tok_bool(x == y), tok_bool(y == x), tok_bool(!(x == y || y == x) || hx.0 == hy.0))
+}
+
 #[inline(never)]
 fn cmpall<L: Sub, R: Sub>(a: &[&str]) -> String
 where
@@ -748,6 +759,7 @@ fn exec(t: &[&str]) -> String {
                 for_types!(d1!(a[0], convv_tgt, (st, a)))
             }
         }
+        "eqhash" => for_types!(d1!(ty_tag(a[0]), eqhash, (a))),
         "cmpall" => {
             let (lt, rt) = (ty_tag(a[0]), ty_tag(a[1]));
             for_types!(d1!(lt, cmp_l1, (rt, a)))
